@@ -623,106 +623,7 @@ func c02(c *Ctx) {
 	}
 
 	c.Rule("R6", "E3 ordering + E1", "pipeline.produce: callbacks (both kinds) run before the aggregations are computed, all under the pipeline lock; every instrument's compAgg is called and its output is not discarded afterwards", 4)
-	if fn := c.Fn(mx, "R6", "(*pipeline).produce"); fn != nil {
-		g := mx.FG(fn)
-		fCB := lookupField(mx.Pkg, "pipeline", "callbacks")
-		fMC := lookupField(mx.Pkg, "pipeline", "multiCallbacks")
-		fComp := lookupField(mx.Pkg, "instrumentSync", "compAgg")
-		cb := g.Match(func(n ast.Node) bool { e, ok := n.(ast.Expr); return ok && isField(minfo, e, fCB) })
-		mc := g.Match(func(n ast.Node) bool { e, ok := n.(ast.Expr); return ok && isField(minfo, e, fMC) })
-		comp := g.Match(func(n ast.Node) bool {
-			call, ok := n.(*ast.CallExpr)
-			return ok && isField(minfo, call.Fun, fComp)
-		})
-		good := len(cb) > 0 && len(mc) > 0 && len(comp) == 1
-		if good {
-			d1, _ := g.DominatedByNodes(comp[0], toSet(cb))
-			d2, _ := g.DominatedByNodes(comp[0], toSet(mc))
-			// no path from compAgg back to a callback loop
-			s, _ := g.Reach([]*GNode{comp[0]}, nil, nil)
-			back := false
-			for _, x := range append(cb, mc...) {
-				if s[x] {
-					back = true
-				}
-			}
-			good = d1 && d2 && !back
-		}
-		c.Check(good, "R6", "sdk/metric|(*pipeline).produce|callbacks precede compAgg", at(mx.M, fn.Pos()), "observable instruments are observed before they are collected",
-			"aggregations are computed before (or interleaved with) the callbacks that feed them: this cycle's observations are reported a cycle late or split")
-		// the scratch value is read from and written back to the same output slot: one index variable on …Metrics[·]
-		{
-			idx := map[types.Object]bool{}
-			inspectNoLit(fn.Body(), func(n ast.Node) bool {
-				ie, ok := n.(*ast.IndexExpr)
-				if !ok {
-					return true
-				}
-				if sel, ok := unparen(ie.X).(*ast.SelectorExpr); ok && sel.Sel.Name == "Metrics" {
-					if o := objOf(minfo, ie.Index); o != nil {
-						idx[o] = true
-					}
-				}
-				return true
-			})
-			c.Check(len(idx) == 1, "R6", "sdk/metric|(*pipeline).produce|one index variable addresses the output slot (read of the scratch Data and all writes)", at(mx.M, fn.Pos()), "same slot read and written",
-				"the aggregation's scratch memory is taken from another output slot than the one it is written to: with a re-used ResourceMetrics two instruments end up sharing one DataPoints array")
-		}
-		if len(comp) == 1 {
-			ok, why := totalFanout(g, comp[0])
-			c.Check(ok, "R6", "sdk/metric|(*pipeline).produce|compAgg called for every instrument", at(mx.M, comp[0].N.Pos()), "the n > 0 test only filters output", "an instrument's aggregation can be skipped (its delta state is never reset / values never reported): "+why)
-			held := mle.Held(fn)[comp[0]]
-			c.Check(held[varKey(fn.Recv())+resolvePath(mx.Pkg, "pipeline", ".Mutex")], "R6", "sdk/metric|(*pipeline).produce|collection under the pipeline lock", at(mx.M, comp[0].N.Pos()), "pipeline lock held", "collection runs without the pipeline lock")
-			// what the aggregations handed out is delivered: after compAgg ran (delta state is consumed by it) no path discards the
-			// output (empties/clears ScopeMetrics or drops the Resource)
-			rm := fn.Obj.Type().(*types.Signature).Params().At(1)
-			isOut := func(e ast.Expr, fld string) bool {
-				sel, ok := unparen(e).(*ast.SelectorExpr)
-				return ok && sel.Sel.Name == fld && sameVar(minfo, sel.X, rm)
-			}
-			discards := g.Match(func(n ast.Node) bool {
-				switch s := n.(type) {
-				case *ast.AssignStmt:
-					for i, l := range s.Lhs {
-						if len(s.Lhs) != len(s.Rhs) {
-							continue
-						}
-						r := unparen(s.Rhs[i])
-						if isOut(l, "Resource") && isNilIdent(minfo, r) {
-							return true
-						}
-						if isOut(l, "ScopeMetrics") {
-							if isNilIdent(minfo, r) {
-								return true
-							}
-							if se, ok := r.(*ast.SliceExpr); ok && se.High != nil {
-								if tv := minfo.Types[se.High]; tv.Value != nil && tv.Value.ExactString() == "0" {
-									return true
-								}
-							}
-						}
-						if st, ok := unparen(l).(*ast.StarExpr); ok && sameVar(minfo, st.X, rm) {
-							return true
-						}
-					}
-				case *ast.CallExpr:
-					if builtinName(minfo, s) == "clear" && len(s.Args) == 1 && isOut(s.Args[0], "ScopeMetrics") {
-						return true
-					}
-				}
-				return false
-			})
-			after, _ := g.Reach([]*GNode{comp[0]}, nil, nil)
-			lost := ""
-			for _, d := range discards {
-				if after[d] {
-					lost = mx.M.posStr(d.N.Pos())
-				}
-			}
-			c.Check(lost == "", "R6", "sdk/metric|(*pipeline).produce|nothing discards the output once an aggregation has been computed", at(mx.M, fn.Pos()), itoa(len(discards))+" discard site(s), all before the first compAgg",
-				"the collected data is thrown away at "+lost+" after the aggregations ran: a delta aggregation has already emptied its state, so those measurements are never reported")
-		}
-	}
+	rulePipelineProduce(c, mx, "R6")
 
 	c.Rule("R7", "E3 ordering", "PeriodicReader.Shutdown: cancel → <-done → producer swap → collect → export only if collect succeeded → exporter.Shutdown; collectAndExport exports only on err == nil; run answers every flush request", 3)
 	rulePeriodicReader(c, mx, "R7")
@@ -1346,4 +1247,112 @@ func ruleFanout(c *Ctx, ix *PkgIndex, rule, fname string, isTarget func(info *ty
 		}
 	}
 	c.Check(good, rule, key, at(ix.M, calls[0].N.Pos()), "no break/continue/return ahead of the call", "a reader's pipeline can be skipped: "+why)
+}
+
+// rulePipelineProduce: pipeline.produce runs the callbacks before the aggregations, calls every instrument's compute function under
+// the pipeline lock, and delivers what they handed out (a delta compute function empties its state: discarding the output
+// afterwards, or leaving the loop early, loses those measurements for good). Shared by C02.R6 and C12.R8.
+func rulePipelineProduce(c *Ctx, mx *PkgIndex, rule string) {
+	minfo := mx.Pkg.TypesInfo
+	mle := c.Locks(mx)
+	if fn := c.Fn(mx, rule, "(*pipeline).produce"); fn != nil {
+		g := mx.FG(fn)
+		fCB := lookupField(mx.Pkg, "pipeline", "callbacks")
+		fMC := lookupField(mx.Pkg, "pipeline", "multiCallbacks")
+		fComp := lookupField(mx.Pkg, "instrumentSync", "compAgg")
+		cb := g.Match(func(n ast.Node) bool { e, ok := n.(ast.Expr); return ok && isField(minfo, e, fCB) })
+		mc := g.Match(func(n ast.Node) bool { e, ok := n.(ast.Expr); return ok && isField(minfo, e, fMC) })
+		comp := g.Match(func(n ast.Node) bool {
+			call, ok := n.(*ast.CallExpr)
+			return ok && isField(minfo, call.Fun, fComp)
+		})
+		good := len(cb) > 0 && len(mc) > 0 && len(comp) == 1
+		if good {
+			d1, _ := g.DominatedByNodes(comp[0], toSet(cb))
+			d2, _ := g.DominatedByNodes(comp[0], toSet(mc))
+			// no path from compAgg back to a callback loop
+			s, _ := g.Reach([]*GNode{comp[0]}, nil, nil)
+			back := false
+			for _, x := range append(cb, mc...) {
+				if s[x] {
+					back = true
+				}
+			}
+			good = d1 && d2 && !back
+		}
+		c.Check(good, rule, "sdk/metric|(*pipeline).produce|callbacks precede compAgg", at(mx.M, fn.Pos()), "observable instruments are observed before they are collected",
+			"aggregations are computed before (or interleaved with) the callbacks that feed them: this cycle's observations are reported a cycle late or split")
+		// the scratch value is read from and written back to the same output slot: one index variable on …Metrics[·]
+		{
+			idx := map[types.Object]bool{}
+			inspectNoLit(fn.Body(), func(n ast.Node) bool {
+				ie, ok := n.(*ast.IndexExpr)
+				if !ok {
+					return true
+				}
+				if sel, ok := unparen(ie.X).(*ast.SelectorExpr); ok && sel.Sel.Name == "Metrics" {
+					if o := objOf(minfo, ie.Index); o != nil {
+						idx[o] = true
+					}
+				}
+				return true
+			})
+			c.Check(len(idx) == 1, rule, "sdk/metric|(*pipeline).produce|one index variable addresses the output slot (read of the scratch Data and all writes)", at(mx.M, fn.Pos()), "same slot read and written",
+				"the aggregation's scratch memory is taken from another output slot than the one it is written to: with a re-used ResourceMetrics two instruments end up sharing one DataPoints array")
+		}
+		if len(comp) == 1 {
+			ok, why := totalFanout(g, comp[0])
+			c.Check(ok, rule, "sdk/metric|(*pipeline).produce|compAgg called for every instrument", at(mx.M, comp[0].N.Pos()), "the n > 0 test only filters output", "an instrument's aggregation can be skipped (its delta state is never reset / values never reported): "+why)
+			held := mle.Held(fn)[comp[0]]
+			c.Check(held[varKey(fn.Recv())+resolvePath(mx.Pkg, "pipeline", ".Mutex")], rule, "sdk/metric|(*pipeline).produce|collection under the pipeline lock", at(mx.M, comp[0].N.Pos()), "pipeline lock held", "collection runs without the pipeline lock")
+			// what the aggregations handed out is delivered: after compAgg ran (delta state is consumed by it) no path discards the
+			// output (empties/clears ScopeMetrics or drops the Resource)
+			rm := fn.Obj.Type().(*types.Signature).Params().At(1)
+			isOut := func(e ast.Expr, fld string) bool {
+				sel, ok := unparen(e).(*ast.SelectorExpr)
+				return ok && sel.Sel.Name == fld && sameVar(minfo, sel.X, rm)
+			}
+			discards := g.Match(func(n ast.Node) bool {
+				switch s := n.(type) {
+				case *ast.AssignStmt:
+					for i, l := range s.Lhs {
+						if len(s.Lhs) != len(s.Rhs) {
+							continue
+						}
+						r := unparen(s.Rhs[i])
+						if isOut(l, "Resource") && isNilIdent(minfo, r) {
+							return true
+						}
+						if isOut(l, "ScopeMetrics") {
+							if isNilIdent(minfo, r) {
+								return true
+							}
+							if se, ok := r.(*ast.SliceExpr); ok && se.High != nil {
+								if tv := minfo.Types[se.High]; tv.Value != nil && tv.Value.ExactString() == "0" {
+									return true
+								}
+							}
+						}
+						if st, ok := unparen(l).(*ast.StarExpr); ok && sameVar(minfo, st.X, rm) {
+							return true
+						}
+					}
+				case *ast.CallExpr:
+					if builtinName(minfo, s) == "clear" && len(s.Args) == 1 && isOut(s.Args[0], "ScopeMetrics") {
+						return true
+					}
+				}
+				return false
+			})
+			after, _ := g.Reach([]*GNode{comp[0]}, nil, nil)
+			lost := ""
+			for _, d := range discards {
+				if after[d] {
+					lost = mx.M.posStr(d.N.Pos())
+				}
+			}
+			c.Check(lost == "", rule, "sdk/metric|(*pipeline).produce|nothing discards the output once an aggregation has been computed", at(mx.M, fn.Pos()), itoa(len(discards))+" discard site(s), all before the first compAgg",
+				"the collected data is thrown away at "+lost+" after the aggregations ran: a delta aggregation has already emptied its state, so those measurements are never reported")
+		}
+	}
 }
